@@ -160,13 +160,15 @@ class Routine(BaseRoutine[T]):
         """Load Routine from a QREF definition, using specified backend for parsing expressions."""
         program = ensure_routine(qref_obj)
         children = {child.name: cls.from_qref(child, backend) for child in program.children}
+        # A document may list several links with the same source: their targets are merged, none is dropped.
+        linked_params: dict[str, tuple[tuple[str, str], ...]] = {}
+        for param in program.linked_params:
+            targets = tuple(((split := target.rsplit(".", 1))[0], split[1]) for target in param.targets)
+            linked_params[str(param.source)] = linked_params.get(str(param.source), ()) + targets
         return Routine[T](
             children=children,
             local_variables={var: backend.as_expression(expr) for var, expr in program.local_variables.items()},
-            linked_params={
-                str(param.source): tuple(((split := target.rsplit(".", 1))[0], split[1]) for target in param.targets)
-                for param in program.linked_params
-            },
+            linked_params=linked_params,
             children_order=tuple(children),
             **_common_routine_dict_from_qref(qref_obj, backend),
         )
